@@ -1,10 +1,11 @@
 #!/bin/sh
 # tools/seed_tests.sh <PID> : for i in 1 2, apply /tmp/seed-<PID>/change<i>.diff in that worktree, run the whole
 # pinned suite there, compare the passed set with BASELINE.json, revert; result in /verif/seeded/<PID>-<i>/tests.txt
-pid="$1"; wt="/tmp/seed-$pid"
+pid="$1"
+if [ "${ROUND:-1}" = "2" ]; then wt="/tmp/seed2-$pid"; off=2; else wt="/tmp/seed-$pid"; off=0; fi
 for i in 1 2; do
   [ -f "$wt/change$i.diff" ] || continue
-  dst="/verif/seeded/$pid-$i"; mkdir -p "$dst"
+  dst="/verif/seeded/$pid-$((i+off))"; mkdir -p "$dst"
   cd "$wt" && git checkout -q -- csvpath && git apply "change$i.diff" || { echo "apply failed" > "$dst/tests.txt"; continue; }
   timeout 3000 /venv/bin/python -m pytest -q -p no:cacheprovider --timeout=900 --continue-on-collection-errors --junitxml="/tmp/seed-$pid-$i.junit.xml" > "/tmp/seed-$pid-$i.pytest.log" 2>&1
   tail -1 "/tmp/seed-$pid-$i.pytest.log" > "$dst/tests.txt"
